@@ -3,6 +3,7 @@ package lease_set2
 
 import (
 	"github.com/go-i2p/common/key_certificate"
+	"github.com/go-i2p/common/offline_signature"
 	"github.com/go-i2p/crypto/types"
 	"github.com/samber/oops"
 )
@@ -75,6 +76,14 @@ func (ls2 *LeaseSet2) Verify() error {
 // Otherwise, the Destination's signing public key is returned.
 func (ls2 *LeaseSet2) signingPublicKeyForVerification() (types.SigningPublicKey, error) {
 	if ls2.HasOfflineKeys() && ls2.offlineSignature != nil {
+		// The transient key only counts when the identity's own key authorised it.
+		identityKey, err := ls2.destination.SigningPublicKey()
+		if err != nil {
+			return nil, oops.Errorf("failed to get the identity's signing public key: %w", err)
+		}
+		if err := requireAuthorisedTransientKey(ls2.offlineSignature, identityKey); err != nil {
+			return nil, err
+		}
 		// Use transient signing public key from offline signature
 		transientKeyBytes := ls2.offlineSignature.TransientPublicKey()
 		transientSigType := ls2.offlineSignature.TransientSigType()
@@ -91,4 +100,18 @@ func (ls2 *LeaseSet2) signingPublicKeyForVerification() (types.SigningPublicKey,
 		return nil, oops.Errorf("failed to get signing public key from Destination: %w", err)
 	}
 	return spk, nil
+}
+
+// requireAuthorisedTransientKey checks that the offline block (expires, transient type,
+// transient key) carries a valid signature by the identity's own signing key. Without this a
+// structure signed by any transient key accompanied by a meaningless offline signature verified.
+func requireAuthorisedTransientKey(o *offline_signature.OfflineSignature, identityKey types.SigningPublicKey) error {
+	verifier, err := identityKey.NewVerifier()
+	if err != nil {
+		return oops.Errorf("failed to create verifier for the offline signature: %w", err)
+	}
+	if err := verifier.Verify(o.SignedData(), o.Signature()); err != nil {
+		return oops.Errorf("offline signature is not valid under the identity's signing key: %w", err)
+	}
+	return nil
 }
